@@ -15,6 +15,10 @@ extern "C" size_t fread(void* p, size_t sz, size_t n, FILE*) {       /* the envi
   if (sz != 1 || n != 1) return 0;
   if (g_fpos >= VX_TLEN) return 0;
   *(unsigned char*)p = g_file[g_fpos++]; return 1; }
+/* the same byte source through the character-at-a-time calls a reader may use instead */
+extern "C" int fgetc(FILE*) { if (g_fpos >= VX_TLEN) return EOF; return g_file[g_fpos++]; }
+extern "C" int getc(FILE*) { if (g_fpos >= VX_TLEN) return EOF; return g_file[g_fpos++]; }
+extern "C" int ungetc(int c, FILE*) { if (g_fpos > 0) --g_fpos; return c; }
 #if VX_WHICH == 0
 #include <apps/read_file.h>
 #else
